@@ -14,7 +14,11 @@ import PgProofs.EvoAlignU
 import PgProofs.EvoPure
 import PgProofs.EvoPermP
 import PgProofs.EvoOrderPerm
+import PgProofs.EvoPmxPerm
+import PgProofs.EvoCyclePerm
 import PgProofs.EvoLaws
+import PgProofs.EvoFuel
+import PgProofs.EvoDetPrims
 import PgModel.EvoSched
 import PgProofs.EvoNumP
 import PgProofs.EvoPropP
@@ -202,17 +206,17 @@ theorem C14_primitive_recOrder (g : GSpec) : ClosedAligned g (recOrder g) := by
 /-- every permutation recombinator (any `permutate` method that only reads the oracle): parents or
 children that went through `from_dict`. Instances: Order, PartiallyMapped, Cycle. -/
 theorem C14_primitive_recPerm (permute : List Nat → List Nat → M (List Nat × List Nat))
-    (hp : ∀ vx vy, OO (permute vx vy)) (g : GSpec) : ClosedAligned g (recPerm permute g) := by
+    (hp : ∀ vx vy, OO (permute vx vy)) (k : Nat) (g : GSpec) : ClosedAligned g (recPerm permute k g) := by
   intro pop st out st' hpop h
-  rcases recPerm_spec permute hp g pop st out st' h with ⟨rfl, _⟩ | ⟨_, hall⟩
+  rcases recPerm_spec permute hp k g pop st out st' h with ⟨rfl, _⟩ | ⟨_, hall⟩
   · exact hpop
   · exact fun y hy => ⟨(hall y hy).1, (hall y hy).2.1⟩
 
 theorem C14_primitive_recPMX (g : GSpec) : ClosedAligned g (recPMX g) :=
-  C14_primitive_recPerm permutePMX OO_permutePMX g
+  C14_primitive_recPerm permutePMX OO_permutePMX 1 g
 
 theorem C14_primitive_recCycle (g : GSpec) : ClosedAligned g (recCycle g) :=
-  C14_primitive_recPerm permuteCycle OO_permuteCycle g
+  C14_primitive_recPerm permuteCycle OO_permuteCycle 1 g
 
 /-- Order crossover proper: for two arrangements of the same distinct items and any cut points
 `start ≤ stop ≤ size` (any random draw), both children are arrangements of those items — `from_dict`
@@ -223,6 +227,24 @@ theorem C14_order_children_are_permutations (vx vy : List Nat) (hn : vx.Nodup) (
   refine ⟨orderChild_perm vx vy hn hp start stop h1 h2, ?_⟩
   have := orderChild_perm vy vx (hp.nodup_iff.mpr hn) hp.symm start stop h1 (by rw [hp.length_eq]; exact h2)
   exact this.trans hp
+
+/-- Partially mapped crossover proper: for two arrangements of the same distinct items, any cut points
+`start ≤ stop ≤ size` (any draw), both children — whenever the re-mapping loop returns them — are
+arrangements of those items: every value PMX places was checked against the values already assigned. -/
+theorem C14_pmx_children_are_permutations (vx vy : List Nat) (hn : vx.Nodup) (hp : vy.Perm vx)
+    (start stop : Nat) (h1 : start ≤ stop) (h2 : stop ≤ vx.length) (c0 c1 : List Nat)
+    (h0 : pmxChild vx vy start stop = some c0) (h1' : pmxChild vy vx start stop = some c1) :
+    c0.Perm vx ∧ c1.Perm vx := by
+  refine ⟨pmxChild_perm vx vy hn hp start stop h1 h2 c0 h0, ?_⟩
+  have := pmxChild_perm vy vx (hp.nodup_iff.mpr hn) hp.symm start stop h1 (by rw [hp.length_eq]; exact h2) c1 h1'
+  exact this.trans hp
+
+/-- Cycle crossover proper: for two arrangements of the same distinct items and every sequence of coin
+draws, both children are arrangements of those items (the assignment of sides is closed under the cycle
+map, and cycles that are assigned never overlap). -/
+theorem C14_cycle_children_are_permutations (vx vy : List Nat) (hn : vx.Nodup) (hp : vy.Perm vx)
+    (st : St) (c0 c1 : List Nat) (st' : St) (h : permuteCycle vx vy st = .ok ((c0, c1), st')) :
+    c0.Perm vx ∧ c1.Perm vx := permuteCycle_perm hn hp st c0 c1 st' h
 
 /-! ## Numeric recombinators `Average` / `WeightedAverage` (exact rationals) -/
 
@@ -408,15 +430,15 @@ theorem C14_pure_recSegmented (g : GSpec) (cuts : List Nat) : Pure g (recSegment
 
 theorem C14_pure_recOrder (g : GSpec) : Pure g (recOrder g) := by
   intro pop st out st' hv hr
-  rcases recOrder_spec g pop st out st' hr with ⟨rfl, rfl⟩ | ⟨hle, hall⟩
-  · exact ⟨Nat.le_refl _, fun y hy => ⟨hv y hy, Or.inl hy⟩⟩
+  rcases recOrder_spec g pop st out st' hr with ⟨rfl, he⟩ | ⟨hle, hall⟩
+  · exact ⟨by omega, fun y hy => ⟨hv y hy, Or.inl hy⟩⟩
   · exact ⟨hle, fun y hy => ⟨(hall y hy).1, Or.inr (hall y hy).2.2⟩⟩
 
 theorem C14_pure_recPerm (permute : List Nat → List Nat → M (List Nat × List Nat))
-    (hp : ∀ vx vy, OO (permute vx vy)) (g : GSpec) : Pure g (recPerm permute g) := by
+    (hp : ∀ vx vy, OO (permute vx vy)) (k : Nat) (g : GSpec) : Pure g (recPerm permute k g) := by
   intro pop st out st' hv hr
-  rcases recPerm_spec permute hp g pop st out st' hr with ⟨rfl, rfl⟩ | ⟨hle, hall⟩
-  · exact ⟨Nat.le_refl _, fun y hy => ⟨hv y hy, Or.inl hy⟩⟩
+  rcases recPerm_spec permute hp k g pop st out st' hr with ⟨rfl, he⟩ | ⟨hle, hall⟩
+  · exact ⟨by omega, fun y hy => ⟨hv y hy, Or.inl hy⟩⟩
   · exact ⟨hle, fun y hy => ⟨(hall y hy).1, Or.inr (hall y hy).2.2⟩⟩
 
 /-! ### Mutators with a `where` filter: the guarantees hold for every filter -/
@@ -508,6 +530,79 @@ theorem C14_sched_pointwise (a b : Sched) (c : Int) (s : Nat) :
   refine ⟨rfl, rfl, ?_⟩
   intro x y hx hy
   simp [Sched.eval, hx, hy]
+
+/-! ## Fuel adequacy: the bounded recursions of the model never stop for lack of fuel -/
+
+/-- the driver passes `depth g + 2`; any fuel ≥ `depth g` suffices for `random_dna` … -/
+theorem C14_fuel_randomDna (g : GSpec) (fuel : Nat) (h : depth g ≤ fuel) (st : St) :
+    randomDna fuel g st ≠ .error .fuel := randomDna_NF fuel g h st
+
+/-- … for the point-wise merge (and the recombinators built on it) … -/
+theorem C14_fuel_pointwise (sample : Bool) (g : GSpec) (fuel : Nat) (h : depth g ≤ fuel)
+    (ps : List (Option DNA)) (pop : Pop) (st : St) :
+    mergeDna sample fuel g ps st ≠ .error .fuel ∧ recPointWise sample fuel g pop st ≠ .error .fuel :=
+  ⟨mergeDna_NF sample fuel g ps h st, recPointWise_NF sample fuel g h pop st⟩
+
+/-- … and the attempt loop of `_merge_multi_choice` ends within the `k + 10` steps it is given (each
+step accepts a subchoice or uses up one of the 8 attempts). -/
+theorem C14_fuel_merge_multi (k : Nat) (dist srt : Bool) (lists : List (Option (List Nat))) (st : St) :
+    mergeMulti k dist srt lists st ≠ .error .fuel := NF_mergeMulti k dist srt lists st
+
+/-! ## Determinism, prefix form -/
+
+/-- same oracle prefix ⇒ same output: a run that returns has read a prefix `used` of the oracle stream,
+and on every stream that starts with `used` it returns the same population, the same uid counter, and
+leaves exactly the rest of that stream. (For a seeded operator: the output is a function of the
+inputs and of the draws it makes, nothing else.) -/
+def Det (op : Op) : Prop := ∀ pop, FrameM (op pop)
+
+/-- composed pipelines inherit it. -/
+theorem C14_det_algebra (e : OpExpr) (h : ∀ op ∈ leaves e, Det op) : Det (eval e) :=
+  fun pop => eval_frame e (fun op ho p => h op ho p) pop
+
+theorem C14_det_selectors (n : NSpec) (r : Bool) :
+    Det (selRandom n r) ∧ Det (selSample n) ∧ Det (selTop n) ∧ Det (selBottom n) ∧ Det (selFirst n) ∧
+    Det (selLast n) :=
+  ⟨FrameM_selRandom n r, FrameM_selSample n, FrameM_selTop n, FrameM_selBottom n, FrameM_selFirst n,
+   FrameM_selLast n⟩
+
+theorem C14_det_selProportional (n : NSpec) (wf : Nat → List Q) : Det (selProportional n wf) := by
+  intro pop
+  simp only [selProportional]
+  split
+  · split
+    · exact FrameM.pure _
+    · exact FrameM.fail _
+  · split
+    · exact FrameM.fail _
+    · cases partition (wf pop.length) (numOutput n pop.length) with
+      | none => exact FrameM.fail _
+      | some a => exact FrameM.pure _
+
+theorem C14_det_mutators (w : Where) (fuel : Nat) (g : GSpec) :
+    Det (mutUniformW w fuel g) ∧ Det (mutSwapW w g) :=
+  ⟨FrameM_mutUniformW w fuel g, FrameM_mutSwapW w g⟩
+
+theorem C14_det_recombinators (fuel k : Nat) (g : GSpec) (cuts : List Nat) :
+    Det (recPointWise false fuel g) ∧ Det (recPointWise true fuel g) ∧ Det (recKPoint g k) ∧
+    Det (recSegmented g cuts) ∧ Det (recPerm permuteOrder k g) ∧ Det (recPerm permutePMX k g) ∧
+    Det (recPerm permuteCycle k g) :=
+  ⟨FrameM_recPointWise false fuel g, FrameM_recPointWise true fuel g,
+   FrameM_recSegment g _ (FrameM_kpointCuts k), FrameM_recSegment g _ (fun _ => FrameM.pure _),
+   FrameM_recPerm _ FrameM_permuteOrder k g, FrameM_recPerm _ FrameM_permutePMX k g,
+   FrameM_recPerm _ FrameM_permuteCycle k g⟩
+
+theorem C14_det_recNumeric (w : Option (Nat → List Q)) (g : GSpec) : Det (recNumeric w g) := by
+  intro pop
+  simp only [recNumeric]
+  split
+  · exact FrameM.pure _
+  · split
+    · exact FrameM.fail _
+    · generalize allSome _ = r
+      cases r with
+      | none => exact FrameM.fail _
+      | some raw => exact FrameM_finishChildren g raw
 
 /-- Determinism: an operation is a function of its inputs, its oracle stream and the uid counter
 (seeded operators: of seed and inputs) — in the model this is functionality of `eval`. -/
